@@ -129,16 +129,17 @@ theorem minc_keeps_inv {w : World} (hI : Grid.Inv w) (args : MincArgs) : Grid.In
 
 /-- **embed_conserves_volume.**  Under the hypotheses of `Props.C08.embed_consistent`: when `embed`
     returns a grid, its total volume equals the host grid's total volume before (the sub-grid's
-    volume is taken out of the host block). -/
-theorem embed_conserves_volume {w : World} {sub : Grid} {c : Nat}
+    volume is taken out of the grid's block that carries the name of the connection's first block —
+    also when that first block is a standalone object of the same name). -/
+theorem embed_conserves_volume {w : World} {sub : Grid} {c x0 x1 : Nat}
     (h1 : Grid.Inv w) (h2 : Grid.Inv (w.withGrid sub))
     (oR : ∀ x ∈ w.rocktypelist, x ∉ sub.rocktypelist) (oB : ∀ x ∈ w.blocklist, x ∉ sub.blocklist)
     (oC : ∀ x ∈ w.connectionlist, x ∉ sub.connectionlist)
     (nR : ∀ x ∈ w.rocktypelist, ∀ y ∈ sub.rocktypelist, w.rname x = w.rname y → ∀ b ∈ w.blocklist, (w.bk b).rock ≠ x)
     (hc : c < w.cons.length) (hc1 : c ∉ w.connectionlist) (hc2 : c ∉ sub.connectionlist)
-    (hhost : (w.cn c).b0 ∈ w.blocklist) (hsb : (w.cn c).b1 ∈ sub.blocklist)
+    (hhost : dget w.block (w.bname (w.cn c).b0) = some x0) (hsb : dget sub.block (w.bname (w.cn c).b1) = some x1)
     {w' : World} (hok : embed w sub c = .ok (w', true)) : totalVolume w' = totalVolume w := by
-  obtain ⟨w'', fl, e, _, hv, _⟩ := Proofs.Grid.embed_inv h1 h2 oR oB oC nR hc hc1 hc2 hhost hsb
+  obtain ⟨w'', fl, e, _, hv, _⟩ := Proofs.Grid.embed_inv' h1 h2 oR oB oC nR hc hc1 hc2 hhost hsb
   rw [hok] at e
   simp only [Except.ok.injEq, Prod.mk.injEq] at e
   obtain ⟨rfl, rfl⟩ := e
